@@ -76,9 +76,10 @@ TABLE = {
            ("ScopeProofs.v", ["scopes_refine", "scope_prefixes_unique", "names_resolve", "unknown_prefix_rejected", "unknown_prefix_never_ok",
                               "duplicate_declaration_rejected", "push_ns_appends", "push_ns_limit", "ns_values_limit_is"])]),
  "C09": dict(
-   intro="C09 -- entity expansion is bounded yet not over-restricted.  (1) the loop detector is sound and complete\n   w.r.t. the trace specification, with the documented numbers (10, 255) against constants regenerated from the\n   source; (2) the node budget over a whole parse: a successfully parsed document has at most\n   1 + len + 256 * len * amp nodes (hence <= 256 * (len + 1) * (amp + 1)), for every input and all options;\n   without a DOCTYPE at most len + 1 nodes.",
-   imports=["From RX.Spec Require Import Detector.", "From RX.Proofs Require Import DetectorProofs OptionsParam OptionsBuild OptionsMain OptionsDtd BudgetStream BudgetTok BudgetBuild BudgetAcct BudgetMain BudgetNoEnt."],
+   intro="C09 -- entity expansion is bounded yet not over-restricted.  (1) the loop detector is sound and complete\n   w.r.t. the trace specification, with the documented numbers (10, 255) against constants regenerated from the\n   source; (2) the node budget over a whole parse: a successfully parsed document has at most\n   1 + len + 256 * len * amp nodes (hence <= 256 * (len + 1) * (amp + 1)), for every input and all options;\n   without a DOCTYPE at most len + 1 nodes; (3) the byte budget: the text of all Text nodes plus all attribute\n   values (text_len + value_len, BudgetBytesBuild.v) is at most len + 256 * len * amp bytes.",
+   imports=["From RX.Spec Require Import Detector.", "From RX.Proofs Require Import DetectorProofs OptionsParam OptionsBuild OptionsMain OptionsDtd BudgetStream BudgetTok BudgetBuild BudgetAcct BudgetMain BudgetNoEnt BudgetBytesBuild BudgetBytesTok BudgetBytesAcct BudgetBytesMain."],
    groups=[("BudgetMain.v", ["expansion_budget_nodes", "expansion_budget_tight"]), ("BudgetNoEnt.v", ["budget_no_entities"]),
+           ("BudgetBytesMain.v", ["expansion_budget_bytes", "expansion_budget_bytes_tight"]),
            ("DetectorProofs.v", ["enter_agrees_model", "detector_sound", "detector_complete", "limits_bound_depth", "limits_bound_nested",
                                  "documented_limits", "chain_accepted_iff", "fan_accepted_iff", "flat_accepted"])]),
  "C10": dict(
@@ -104,9 +105,10 @@ TABLE = {
                                "has_tag_name_spec", "has_tag_name_non_element", "lookup_namespace_uri_first", "default_namespace_is_lookup_none",
                                "lookup_prefix_xml", "lookup_prefix_first", "attr_eqb_spec"])]),
  "C13": dict(
-   intro="C13 -- source ranges are valid and designate the construct they belong to.  For every parsed document\n   (entity-expanded nodes included): every node and attribute range is a valid slice of the input (start <=\n   end <= len, char boundaries), the root range is the whole input, every attribute lies strictly inside its\n   element's range with its qname sub-range inside it; for documents without a DOCTYPE a child's range lies\n   within its parent's and a node starts after its previous sibling ends.  Shape clauses, from the lexer\n   post-conditions: the range of a comment token is exactly '<!--' text '-->', of a PI token '<?' target ...\n   '?>', a start tag runs from '<' to its '>' and the name follows the '<', an end tag from '</' to '>';\n   text / CDATA ranges are the token's source.  (The builder stores these token ranges; validity, nesting\n   and the shift relation are checked by the range oracle, not proved.)",
-   imports=["From RX.Proofs Require Import LexerProofs NoPanicTokenizer RangeTokenizer RangeArena RangeInv RangeBuilder RangeParse."],
+   intro="C13 -- source ranges are valid and designate the construct they belong to.  For every parsed document\n   (entity-expanded nodes included): every node and attribute range is a valid slice of the input (start <=\n   end <= len, char boundaries), the root range is the whole input, every attribute lies strictly inside its\n   element's range with its qname sub-range inside it; for documents without a DOCTYPE a child's range lies\n   within its parent's and a node starts after its previous sibling ends.  Shape clauses, from the lexer\n   post-conditions: the range of a comment token is exactly '<!--' text '-->', of a PI token '<?' target ...\n   '?>', a start tag runs from '<' to its '>' and the name follows the '<', an end tag from '</' to '>';\n   text / CDATA ranges are the token's source.  Attribute sub-ranges (below the documented saturation limits):\n   the qname sub-range ends where the local name ends, the value sub-range is delimited by the same quote on\n   both sides, ends one byte before the attribute's end, equals a borrowed value's slice, and only whitespace and\n   one '=' separate it from the qname.  Shift: prepending whitespace to an input that starts with neither a BOM nor\n   an XML declaration yields the same document with every non-root range moved by exactly that length.",
+   imports=["From RX.Proofs Require Import LexerProofs NoPanicTokenizer RangeTokenizer RangeArena RangeInv RangeBuilder RangeParse RangeAttrLocal RangeAttrTok RangeAttrParse RangeShiftBase RangeShiftStream RangeShiftTokenizer RangeShiftBuilder RangeShiftParse RangeShiftFinal."],
    groups=[("RangeParse.v", ["parse_ranges_valid", "parse_attr_ranges_inside", "parse_ranges_nest", "parse_ranges_siblings"]),
+           ("RangeAttrParse.v", ["parse_attr_subranges"]), ("RangeShiftFinal.v", ["parse_shift_whitespace_partial"]),
            ("RangeTokenizer.v", ["tokenizer_token_ranges"], "Local Notation token := Tokenizer.token."),
            ("LexerProofs.v", ["parse_comment_post", "parse_pi_post", "parse_cdata_post", "parse_text_post", "parse_element_tokens",
                               "parse_close_element_post"], "Local Notation token := Tokenizer.token.", "forall (text : bytes),")]),
@@ -123,9 +125,10 @@ TABLE = {
    imports=["From RX.Proofs Require Import OptionsParam OptionsBuild OptionsMain OptionsDtd."],
    groups=[("OptionsMain.v", ["limit_caps", "limit_above", "limit_below", "limit_error_persists"])]),
  "C16": dict(
-   intro="C16 -- DTD processing is off by default and allow_dtd changes nothing else: the default options\n   are {allow_dtd = false; nodes_limit = u32::MAX} (read from the source by the translator); with\n   allow_dtd = false the result is Err DtdDetected or identical to the result with allow_dtd = true;\n   an input without the string '<!DOCTYPE' gives identical results.",
-   imports=["From RX.Proofs Require Import OptionsParam OptionsBuild OptionsMain OptionsDtd."],
-   groups=[("OptionsMain.v", ["default_options_are", "dtd_flag_relation"]), ("OptionsDtd.v", ["no_doctype_no_difference"])]),
+   intro="C16 -- DTD processing is off by default and allow_dtd changes nothing else: the default options\n   are {allow_dtd = false; nodes_limit = u32::MAX} (read from the source by the translator); with\n   allow_dtd = false the result is Err DtdDetected or identical to the result with allow_dtd = true;\n   an input without the string '<!DOCTYPE' gives identical results; with allow_dtd = false no entity is ever\n   declared, and the total length of all text and attribute values (text_len + value_len, DefaultMain.v) of a\n   parsed document is at most the input length.",
+   imports=["From RX.Proofs Require Import OptionsParam OptionsBuild OptionsMain OptionsDtd DefaultEntities DefaultTokenizer DefaultContent DefaultText DefaultMain."],
+   groups=[("OptionsMain.v", ["default_options_are", "dtd_flag_relation"]), ("OptionsDtd.v", ["no_doctype_no_difference"]),
+           ("DefaultEntities.v", ["no_entities_without_dtd"]), ("DefaultMain.v", ["content_le_input"])]),
  "C18": dict(
    intro="C18 -- borrowed strings are slices of the input; undecoded content is not copied.  In the model a\n   borrowed string is an offset pair; every such pair in a parsed document is a valid slice of the input\n   (start <= end <= len, both on char boundaries), the only 'static strings are those of the xml\n   namespace, and the fast paths keep text / CDATA / attribute values borrowed.",
    imports=["From RX.Proofs Require Import BorrowLocal BorrowTokenizer BorrowParse TextMerge."],
